@@ -101,7 +101,7 @@ def gen_fault(rnd, root, donors, FST):
     elif fk == 'unknown_option':
         step['opts'][rnd.choice(UNKNOWN_OPTIONS)] = rnd.choice([True, 1, 'x'])
     elif fk == 'ordering':
-        step['ordering'] = rnd.choice(['pos_after_kw', 'dstar_before_star', 'two_varargs', 'default_gap', 'mm_rest_not_last', 'star_alias', 'kwonly_nodefault_order', 'posonly_after'])
+        step['ordering'] = rnd.choice(['kw_before_pos', 'kw_before_pos_view', 'kw_before_pos', 'pos_after_kw', 'dstar_before_star', 'two_varargs', 'default_gap', 'mm_rest_not_last', 'star_alias', 'kwonly_nodefault_order', 'posonly_after'])
     elif fk == 'slice_bounds':
         step['op'] = rnd.choice(['put_slice', 'put_slice_none', 'get_slice_cut'])
         step['bounds'] = rnd.choice([(3, 1), ('end', 0), (-1, -3), ('x', 'y'), (None, None), (1.5, 2), (0, 'nope')])
@@ -211,6 +211,18 @@ def apply_fault(root, step, FST, scratch):
             calls = [c for c in calls if any(k.arg for k in c.a.keywords)]
             if calls:
                 return pick(calls).append('posarg', '_args', **opts)
+        if o in ('kw_before_pos', 'kw_before_pos_view'):
+            calls = [c for c in calls if c.a.args and not isinstance(c.a.args[0], ast.Starred)]
+            solo = [c for c in calls if len(c.a.args) == 1 and not c.a.keywords and isinstance(c.a.args[0], ast.GeneratorExp)]
+            if solo and len(root.src) % 3:
+                calls = solo
+            if calls:
+                c = pick(calls)
+                code = ['kz=1', '**kk', 'kz=1, **kk'][len(step['path']) % 3]
+                if o == 'kw_before_pos':
+                    return c.put_slice(code, 0, 0, '_args', **opts)
+                with FST.options(**opts):
+                    return c._args.insert(code.split(',')[0], 0)
         if o == 'dstar_before_star' and calls:
             c = pick(calls)
             return c.put_slice('**dd, *ss', 0, 0, '_args', **opts)
